@@ -200,6 +200,37 @@ NARROW_INT_FORMS = ("arr_i32",)
 T0_FORMS = ("np_f64", "np_i64", "np_f32", "py_float", "py_int")
 SCALAR_TIME_KINDS = ("float", "int", "np_f64", "np_i64", "list1", "list1_int", "tuple1")
 GRID_KINDS = ("list", "tuple", "array", "list_int", "tuple_int", "array_int")
+# boolean options of solve_stochast (`exact`, `full_output`): the same truth value as a Python bool, as 1 / 0, or as the numpy.bool_
+# a comparison of arrays gives (`exact = x0.sum() <= 1000`).  The unchanged pygom tests truthiness everywhere, so every form is accepted
+# and must give the answer of the literal True / False.
+FLAG_FORMS = ("bool", "int", "np_bool")
+
+
+def flag_obj(value, form):
+    """the object handed over for a boolean option with truth value `value`"""
+    value = bool(value)
+    return {"bool": lambda: value, "int": lambda: int(value), "np_bool": lambda: np.bool_(value)}[form or "bool"]()
+
+
+def add_flag_forms(r, ops, *, share=0.5, full_output_false=0.0):
+    """vary the FORM of the boolean options of the `run` ops of a session (in place; every choice from `r`): `exact` / `full_output`
+    as 1 / 0 or numpy.bool_ instead of the literal, and (share `full_output_false`) full_output switched off - the call then returns
+    the list of state arrays only.  A repeated call (`repeat_of`) draws its own form: the result may depend on the truth value only."""
+    for op in ops:
+        if op.get("op") != "run":
+            continue
+        if r.random() < share:
+            op["exact_form"] = r.choice(["int", "np_bool"])
+        if r.random() < share:
+            op["full_output_form"] = r.choice(["int", "np_bool"])
+        if r.random() < full_output_false:
+            op["full_output"] = False
+        if op.get("repeat_of") is not None:
+            # a repeated call is compared array by array with the first one: it returns the same pieces (the FORMS are its own)
+            op.pop("full_output", None)
+            if not ops[op["repeat_of"]].get("full_output", True):
+                op["full_output"] = False
+    return ops
 
 
 def make_x0(values, form):
@@ -339,8 +370,9 @@ class Trace:
         self.result = None     # what solve_stochast returned
 
 
-def traced_run(model, time_arg, exact, np_seed, iterations=1, max_steps=MAX_STEPS):
-    """run the real solve_stochast(time_arg, iterations, exact=, full_output=True) under observation"""
+def traced_run(model, time_arg, exact, np_seed, iterations=1, max_steps=MAX_STEPS, exact_arg=None, full_output_arg=None):
+    """run the real solve_stochast(time_arg, iterations, exact=, full_output=True) under observation.  `exact_arg` / `full_output_arg`:
+    the OBJECTS handed over for the two options when they are not the literals `exact` / True (see `flag_obj`)"""
     from pygom.model._model_errors import SimulationError
     tr = Trace()
     saved = {}
@@ -398,7 +430,8 @@ def traced_run(model, time_arg, exact, np_seed, iterations=1, max_steps=MAX_STEP
         np.random.seed(np_seed)
         with contextlib.redirect_stdout(buf):
             try:
-                tr.result = model.solve_stochast(time_arg, iterations, exact=exact, full_output=True)
+                tr.result = model.solve_stochast(time_arg, iterations, exact=exact if exact_arg is None else exact_arg,
+                                                 full_output=True if full_output_arg is None else full_output_arg)
             except Exception as exc:  # recorded, judged by the caller
                 tr.error = exc
     finally:
@@ -731,7 +764,11 @@ class Call:
 
 def default_session(case):
     sim = case["sim"]
-    return [{"op": "run", "exact": sim["mode"] == "exact", "time": time_spec(sim), "iterations": 2, "np_seed": sim["np_seed"]}]
+    op = {"op": "run", "exact": sim["mode"] == "exact", "time": time_spec(sim), "iterations": 2, "np_seed": sim["np_seed"]}
+    for k in ("exact_form", "full_output_form", "full_output"):
+        if sim.get(k) is not None:
+            op[k] = sim[k]
+    return [op]
 
 
 def _same_obj(a, b):
@@ -885,12 +922,19 @@ def run_session(case, judge, prop, tags, mism, viol, max_steps=MAX_STEPS):
             c.case = dict(case, x0=c.x0, sim=c.sim, params=dict(cur["params"]))
             c.leftover = c.exact and (cur["pre_tau"] is not None or cur["epsilon"] is not None)
             c.tobj = time_obj(c.ts)
+            # the FORM of the boolean options (bool / 1, 0 / numpy.bool_); full_output=False returns the state arrays only
+            c.full_output = bool(op.get("full_output", True))
+            flags = {"exact_arg": flag_obj(c.exact, op["exact_form"]) if op.get("exact_form") else None,
+                     "full_output_arg": flag_obj(c.full_output, op.get("full_output_form")) if (op.get("full_output_form") or not c.full_output) else None}
+            if op.get("exact_form"): tags.append("exact_form:%s:%s" % (op["exact_form"], "exact" if c.exact else "tau"))
+            if op.get("full_output_form"): tags.append("full_output_form:" + op["full_output_form"])
+            if not c.full_output: tags.append("full_output:off")
             handed_t = ("time argument (%s, op %d)" % (c.ts["kind"], i), c.tobj, copy.deepcopy(c.tobj))
             tags.append("time:" + c.ts["kind"])
             if c.is_grid and c.grid[0] > cur["t0"]: tags.append("grid_starts_after_t0")
             if c.leftover: tags.append("exact_with_leftover_tau_config")
             if len(calls): tags.append("call>=2:" + mode.split("_")[0])
-            c.tr = traced_run(model, c.tobj, c.exact, op["np_seed"], iterations=c.sim["iterations"], max_steps=max_steps)
+            c.tr = traced_run(model, c.tobj, c.exact, op["np_seed"], iterations=c.sim["iterations"], max_steps=max_steps, **flags)
             if (isinstance(c.tr.error, AttributeError) and "tolist" in str(c.tr.error) and cur["t0_form"] in ("py_float", "py_int")):
                 # the unchanged pygom does not support a Python number as initial time in stochastic simulation
                 tags.append("rejected_form:t0:" + cur["t0_form"])
@@ -915,7 +959,8 @@ def run_session(case, judge, prop, tags, mism, viol, max_steps=MAX_STEPS):
                 fc = dict(case, x0=c.x0, sim=dict(c.sim), params=dict(cur["params"]))
                 fm = build_model(fc)
                 _configure(fm, cur)
-                ftr = traced_run(fm, time_obj(c.ts), c.exact, op["np_seed"], iterations=c.sim["iterations"], max_steps=max_steps)
+                ftr = traced_run(fm, time_obj(c.ts), c.exact, op["np_seed"], iterations=c.sim["iterations"], max_steps=max_steps,
+                                 full_output_arg=flags["full_output_arg"] if not c.full_output else None)
                 tags.append("probe:fresh_reference")
                 c.fresh_result = ftr.result        # kept for callers whose property states it (C16); nothing here reads it
                 if ftr.result is not None:
